@@ -112,7 +112,7 @@ func (in *Interp) call(st *State, call *ast.CallExpr) Val {
 				in.site(st, bv, "get", bv.Off, Const(w), call)
 				if b := st.bufs[bv.ID]; b != nil && b.Origin == "param" {
 					in.pendingRead = &Rec{Off: bv.Off, W: Const(w), Kind: "int", Order: order, Pos: call.Pos()}
-					return IntV{FromAtom(&Atom{Kind: "val", Path: fmt.Sprintf("P[%s:%d]", bv.Off, w)})}
+					return IntV{setAtomMax(FromAtom(&Atom{Kind: "val", Path: fmt.Sprintf("P[%s:%d]", bv.Off, w)}), int64(1)<<uint(8*w)-1)}
 				}
 			}
 			return IntV{Opq(in.render(st, call))}
